@@ -46,7 +46,10 @@ def gen_circuit_text(rng, maxops, nmodes=8):
         else:
             parts = []
             for _ in range(rng.choice([1, 1, 2])):
-                if regvars and rng.random() < 0.25:
+                if rng.random() < 0.06:
+                    # a template parameter whose NAME starts like a register reference is a parameter, not a wire
+                    parts.append(rng.choice(["{q0_%d}", "2*{q0_%d}", "{q%d_0}"]) % rng.randrange(nmodes))
+                elif regvars and rng.random() < 0.25:
                     parts.append(rng.choice([rng.choice(regvars), "0.5*" + rng.choice(regvars)]))
                 elif rng.random() < 0.3:
                     regs = rng.sample(range(nmodes + 2), rng.choice([1, 1, 2]))
@@ -62,7 +65,9 @@ def gen_circuit_text(rng, maxops, nmodes=8):
             args = "(" + ", ".join(parts) + ")"
         ms = ", ".join(spell(m) for m in modes)
         lines.append("%s%s | %s" % (rng.choice(GATES), args, ms if len(modes) == 1 else "[" + ms + "]"))
-    return "name c\nversion 1.0\n\n" + "\n".join(lines) + "\n"
+    # the dependency graph does not depend on the declared program type
+    head = rng.choice(["", "", "", "type tdm (temporal_modes=2)\n", "type tdm\n", "target X8 (shots=3)\n"])
+    return "name c\nversion 1.0\n" + head + "\n" + "\n".join(lines) + "\n"
 
 
 def wires_of(op):
